@@ -75,7 +75,8 @@ RULE = (
     "'', d, s, ds, ss, dd, sd, d1s0, sss, dss) with sources taken from earlier outputs or fresh "
     "tensors; operators + - * @ and scalar scaling; alias a name; alias the C struct (struct "
     "outliving its Tensor); raw read; pickle round trip; to_format; ==; refused evaluate "
-    "(inconsistent argument); del; gc}, under a seeded heap (garbage, red zones, realloc/zero "
+    "(inconsistent argument); del; gc; cache_clear (the compiled method is dropped while its "
+    "results live on)}, under a seeded heap (garbage, red zones, realloc/zero "
     "policy), a per-worker initial capacity, and gc.collect() injected at seeded trace lines "
     "inside operations; every history ends with del of all names + gc. distinct_nontrivial "
     "counts distinct operation-kind sequences that contain at least one kernel output that is "
@@ -101,6 +102,8 @@ def gen_plan(seed, cfg):
     tier = (cfg or {}).get("tier", "quick")
     bucket = seed % 8
     nops = rng.randint(3, 12) if tier == "quick" or rng.random() < 0.5 else rng.randint(8, 30)
+    cold = seed % 16 == 15
+    llvm_kernels = [i for i, k in enumerate(KERNELS) if k[4] == "llvm"]
     # generator-side model: name -> (kind, dims, fmt, from_kernel)
     names = {}
     ops = []
@@ -128,6 +131,8 @@ def gen_plan(seed, cfg):
         dst = rng.choice(NAMES)
         if kind == "eval":
             ki = rng.randrange(len(KERNELS))
+            if cold:
+                ki = llvm_kernels[ki % len(llvm_kernels)]
             a, of, params, od, be = KERNELS[ki]
             ops.append({"op": "eval", "dst": dst, "kernel": ki,
                         "srcs": {p: pick_source(d, f) for p, d, f in params}})
@@ -167,6 +172,8 @@ def gen_plan(seed, cfg):
             ops.append({"op": "eq", "a": rng.choice(tensors()), "b": rng.choice(tensors())})
         elif kind == "refused" and tensors():
             ki = rng.randrange(len(KERNELS))
+            if cold:
+                ki = llvm_kernels[ki % len(llvm_kernels)]
             ops.append({"op": "refused", "kernel": ki, "how": rng.choice(["dim", "order", "format", "type", "missing"]),
                         "src": rng.choice(tensors())})
         elif kind == "del" and names:
@@ -175,6 +182,12 @@ def gen_plan(seed, cfg):
             del names[n]
         elif kind == "gc":
             ops.append({"op": "gc"})
+    # the compiled method leaves the kernel cache while its results are still alive.  Clearing the
+    # cache makes every later history of the worker recompile what it uses, so these histories are
+    # concentrated on the seeds of one worker (seed mod 16 = 15) and use LLVM kernels only.
+    if cold and rng.random() < 0.4 and any(o["op"] == "eval" for o in ops):
+        first_eval = min(i for i, o in enumerate(ops) if o["op"] == "eval")
+        ops.insert(rng.randint(first_eval + 1, len(ops)), {"op": "cache_clear"})
     # GC faults inside operations: (operation index, k-th counted trace line)
     p_gc = rng.choice([0.0, 0.2, 0.5, 1.0])
     faults = []
@@ -780,6 +793,13 @@ class Run:
                 del ent
             elif kind == "gc":
                 gc.collect()
+            elif kind == "cache_clear":
+                from tensora.compile import _porcelain
+
+                _porcelain.cachable_tensor_method.cache_clear()
+                self.probe("kernel_cache_cleared_while_results_alive"
+                           if any(m.logical[l]["blocks"] for _, l in m.names.values())
+                           else "kernel_cache_cleared")
         except Exception:
             # every call into tensora above has its own handler: an exception that reaches this
             # point was raised by the harness itself and must never be reported as a violation
